@@ -16,6 +16,9 @@ CHECKS = {
     'C01': ('symbolic execution of the real tools/laue functions on a symbolic cell; polynomial identities and inequalities decided by z3/cvc5 (QF_NRA)',
             'Bounded model checking over exact reals: each of ~80 obligations (metric identities, triangularity, positivity, volume, sintl, '
             'round trips) is unsat-checked for every cell in the stated domain; one path per function (no branches).', '', '6/C01'),
+    'C02': ('symbolic execution of the real UBI/U/B conversion functions on a unit-quaternion rotation and symbolic cell; path exploration of ub_to_u_b under a QR contract stub; identities decided by z3/cvc5 (QF_NRA)',
+            'Bounded model checking over exact reals: UBI.(U.B.h)=kappa.h, UBI rows = lattice vectors, ubi_to_cell/ubi_to_u/ubi_to_rod/ubi_to_u_b round trips for all U in SO(3) and all valid cells; '
+            'ub_to_u_b for every UB=U0.B0 and every sign pattern a QR routine may return (8 paths).', 'numpy.linalg.qr is replaced by its mathematical contract (over-approximating LAPACK sign choices).', '6/C02'),
 }
 NA_REASON = {}
 
